@@ -43,6 +43,13 @@ def det_schema(draw) -> M.Schema:
     cfg = CS.CanCfg(max_msgs=3, max_enums=2, enums_max_bits=8, widths=st.sampled_from([8, 16, 32, 64]),
                     signed=True, nested=False, arrays=False, mux=False)
     s = draw(CS.can_schema(cfg))
+    # device names whose snake/pascal conversions collide ("Ecu"/"ecu", "BmsMaster"/"bms_master") share generated paths
+    if draw(st.integers(0, 3)) == 0:
+        pair = draw(st.sampled_from([("Ecu", "ecu"), ("BmsMaster", "bms_master"), ("Vcu", "vcu")]))
+        cans = [i for i in s.impls if i.protocol == "can"]
+        for n, im in enumerate(cans):
+            im.fields = [(k, v) for k, v in im.fields if k != "device"] + [("device", pair[n % 2])]
+            im.order = None
     structs = [x.name for x in s.structs]
     taken = {(i.eff_name, i.protocol) for i in s.impls}
     for _ in range(draw(st.integers(0, 3))):
